@@ -310,6 +310,13 @@ CLAIMS.update({
                 'rounds. PARTIAL: Taken is a hypothesis (decidable on the run); of the three facts it follows from only the sender one is proved (lowest outstanding chunk first on the wire whatever cwnd/rwnd: '
                 'C02_rtx_progress_partial, C02_probe_when_blocked); the receiver taking that chunk at zero window when it fills a gap or has credit after the application read (needs reassembly-level byte accounting) and the '
                 'invariant "a gap-acked chunk was really received" for sound SACK histories (soundSack / Honest) are stated, not proved; reads = writes at the end is evaluated on the example run only. '
+                'SECOND PASS (towards removing Taken; Proofs/NetSys/Live{Head,Take,Acked,Taken}.lean): the two halves of the argument are theorems on NetSys - C02_netsys_lowest_on_wire (every reachable established state with something outstanding, '
+                'un-acked in-flight chunks fitting a packet, nothing abandoned: after the round\'s T3-if-in-flight + gather(free budget, FIFO) the head of the in-flight queue, TSN = cumulative ack point + 1, is gap-acked or is the FIRST chunk that gather put on the wire, '
+                'whatever cwnd / rwnd are) and C02_netsys_receiver_takes (every reachable state with the receiver established: handed a chunk of the history with TSN = cumulative point + 1, a stream object available and Room - credit, or something held above the '
+                'cumulative point, i.e. the chunk lies below the highest TSN received and is stored at a FULL buffer - handleData moves the cumulative point forward, unless the reassembly queue refuses the chunk and the ABORT / panic flag is up). The premises of one round are the decidable '
+                'RoundOk = receiver established, Room, InSync (sender cumulative ack point not ahead of the receiver\'s; when equal the lowest outstanding chunk is not gap-acked), HeadOk (no ABORT in answer to the first delivery); evaluated true on every round of the example. '
+                'STILL OPEN, so the drain theorem keeps _partial and its hypothesis TakenN: the glue RoundOk -> Taken (first delivery of the round = that chunk into that receiver state; frames of chunksStart / chunksEnd), Honest -> InSync as a run invariant (proved towards it: markGaps_acked, gather_ackedFrom), '
+                'Room from FitsBuffer (maxMessageSize <= maxReceiveBufferSize) after the application read everything - needs the converse of Reasm.OrdInv.pushed, which would also give reads = writes at the end (C02_netsys_all_read is NOT stated), and HeadOk from maxReassemblyQueueEntries = 0. '
                 'C02_netsys_stuck_witness (decide): with a receive buffer of two maximal chunks and a 3-chunk message the fault-free healed rounds NEVER deliver - acceptPayloadData drops the third chunk at a full buffer, the '
                 'incomplete message cannot be read, credit stays 0 - so "buffer >= one maximal chunk + application reads" is not enough; every message in progress must fit the receive buffer (maxMessageSize <= maxReceiveBufferSize; '
                 'true for the defaults 64 KiB / 1 MiB, not enforced by Config). '
